@@ -36,3 +36,32 @@ def length_contract(S, st, args, dim, esz):
     st.pc += [y >= 0, y * y * l2.d == l2.n]
     st.wit.append((l2, y))
     return Rat(y)
+
+
+def atan2_model(S, st, args):
+    """exact model of t = atan2(y, x) as far as sin(t), cos(t) are concerned (all the callers do with the angle is feed it, possibly
+    negated, to sin/cos):  (x,y) != (0,0):  sin t * h == y, cos t * h == x with h = sqrt(x^2+y^2) > 0;   atan2(0,0) == 0 (C11/IEEE).
+    The angle itself is a fresh real; its sin/cos pair is registered so later sin/cos calls on it (or on its negation) find it."""
+    import math
+    from fractions import Fraction
+    from vf.irsym import R
+    y, x = R(args[0]), R(args[1])
+    if y.conc() and x.conc():
+        fy, fx = y.frac(), x.frac()
+        if fy == 0 and fx >= 0: return Rat(Fraction(0))
+        if getattr(S, 'approx_sqrt', False): return Rat(Fraction(math.atan2(float(fy), float(fx))))
+    t = S.newreal('ang'); h = S.newreal('hyp')
+    sv, cv = S.sincos(st, Rat(t))
+    sv, cv = sv.n, cv.n
+    yn, yd, xn, xd = y.n, y.d, x.n, x.d
+    nz = z3.Or(xn != 0, yn != 0) if not (x.conc() and y.conc()) else bool(x.frac() != 0 or y.frac() != 0)
+    some = z3.And(h > 0, h * h * (yd * yd) * (xd * xd) == yn * yn * (xd * xd) + xn * xn * (yd * yd), sv * h * yd == yn, cv * h * xd == xn)
+    none = z3.And(t == 0, sv == 0, cv == 1)
+    if nz is True: st.pc.append(some)
+    elif nz is False: st.pc.append(none)
+    else: st.pc += [z3.Implies(nz, some), z3.Implies(z3.Not(nz), none)]
+    return Rat(t)
+
+
+def install_atan2(sym):
+    sym.calls['atan2'] = atan2_model
